@@ -20,7 +20,7 @@ func init() {
 		Rule: "one case = (MTU, OBU sequence: type, extension ids, payload size relative to the MTU, size field on all or omitted on the last); packetized by AV1Payloader, checked by the reference aggregation-rule checker, reassembled through AV1Depacketizer and through AV1Packet + frame.AV1; complete sub-domains (LEB128, OBU headers) are swept inside executions; non-trivial = more than one packet or more than one element in a packet",
 		Assumptions: []string{
 			"sequences of 1-2 OBUs over the full alphabets (types {0,1,2,3,4,5,6,8,15}, extension none/(0,0)/(1,0)/(0,1)/(2,1), 8-13 sizes), 3 OBUs over 4 types x 3 extensions x 4 sizes, 4 OBUs over 3x3x3 (thorough: 5 OBUs over 3x2x2); MTU {2,3,4,5,6,8,16,130,131,200}",
-			"layer boundaries: all sequences of 3-5 OBUs over {frame of layer (0,0) / (1,0) / (0,1) / without extension, temporal delimiter and tile list with and without extension, sequence header} at MTU {5,200}; wide scenario: all sequences of 6-8 OBUs over {frame 1B, frame MTU-1 B, temporal delimiter, frame with another layer id} for MTU {4,9,40}; every OBU type 0-15 x every extension (t,s) with t in 0..7, s in 0..3 alone and after a frame; input size fields padded to non-minimal LEB128; 64-300 one- and two-byte OBUs in one call (more than 256 elements in a packet); OBUs of 16382/16383/16384/70000 bytes (3-byte LEB128 sizes, more than 256 fragments) for MTU {5,200,20000,65535} and of 2^21-2 .. 2^21+1 bytes (4-byte LEB128 sizes) for MTU {20000,65535}",
+			"every ordered pair of the 32 layer ids (8 temporal x 4 spatial), alone and followed by an OBU of the first layer; layer boundaries: all sequences of 3-5 OBUs over {frame of layer (0,0) / (1,0) / (0,1) / without extension, temporal delimiter and tile list with and without extension, sequence header} at MTU {5,200}; wide scenario: all sequences of 6-8 OBUs over {frame 1B, frame MTU-1 B, temporal delimiter, frame with another layer id} for MTU {4,9,40}; every OBU type 0-15 x every extension (t,s) with t in 0..7, s in 0..3 alone and after a frame; input size fields padded to non-minimal LEB128; 64-300 one- and two-byte OBUs in one call (more than 256 elements in a packet); OBUs of 16382/16383/16384/70000 bytes (3-byte LEB128 sizes, more than 256 fragments) for MTU {5,200,20000,65535} and of 2^21-2 .. 2^21+1 bytes (4-byte LEB128 sizes) for MTU {20000,65535}",
 			"OBU payload bytes are position dependent; OBU contents are not parsed by the RTP layer",
 			"LEB128: all 2^32 values in the thorough tier; quick: 4096 values on each side of every 7-bit boundary and a 2^16-stride sweep",
 		},
@@ -366,7 +366,17 @@ func c13Wide(c *mc.Ctx) {
 	c13Decoy = c.Bool()
 	defer func() { c13Decoy = false }()
 	omit := c.Bool()
-	switch c.Pick(6) {
+	switch c.Pick(7) {
+	case 6: // every ordered pair of layer ids (8 temporal x 4 spatial), with and without a third OBU of the first layer
+		a, b := c.Pick(32), c.Pick(32)
+		obus := []ref.OBU{
+			{Type: 6, HasExt: true, TID: uint8(a / 4), SID: uint8(a % 4), Payload: fill(2, 1)},
+			{Type: 6, HasExt: true, TID: uint8(b / 4), SID: uint8(b % 4), Payload: fill(2, 2)},
+		}
+		if c.Bool() {
+			obus = append(obus, ref.OBU{Type: 6, HasExt: true, TID: uint8(a / 4), SID: uint8(a % 4), Payload: fill(1, 3)})
+		}
+		c13Run(c, 200, obus, omit)
 	case 5: // OBUs that are removed on the way (temporal delimiter, tile list) between OBUs of different layers
 		mtu := mc.From(c, []int{5, 200})
 		n := 3 + c.Pick(3)
